@@ -14,12 +14,18 @@
  *   spur T         spurious wake-up of T (must be blocked in wait)
  *   reset
  *   nospec         (before start) programs are not disciplined; no effect on this side
+ *   twin           (after start) a SECOND lock object is created and exercised from the scheduler's own
+ *                  context (the primitives do not yield there): it must be a different object with its own
+ *                  mutex, a writer trylock on it succeeds whatever the threads do with the first lock, a reader
+ *                  trylock then fails, and the first lock's counter words do not move.  `twin ok` or `twin !<what>`
+ *   null OP        p_rwlock_<OP> (NULL): `null OP ret=0`, or `... ret=1 !NULL-ACCEPTED`
  *   auto SEED N P  (not part of the diff protocol) the harness schedules itself: up to N random
  *                  steps among the enabled threads, spurious wake-up with probability P percent;
  *                  prints the ops it chose and a final line `auto <end|deadlock|unsafe|limit>`
  * status line: see lean/PV/Driver/RWLock.lean.  The harness's own oracle appends
  *   !DEADLOCK  no thread can make a step although some program is unfinished
  *   !UNSAFE    (sticky) an acquire call returned TRUE while the user-level holders forbid it
+ *   !TRYBLOCK  (sticky) a trylock call reached p_cond_variable_wait ("trylock never blocks")
  */
 #define _GNU_SOURCE
 #include <stdio.h>
@@ -27,6 +33,7 @@
 #include <string.h>
 #include <unistd.h>
 #include <ucontext.h>
+#include <setjmp.h>
 
 #include "pmem.h"
 #include "pmutex.h"
@@ -40,9 +47,9 @@ P_LIB_API void p_free (ppointer p) { free (p); }
 
 #include "prwlock-general.c"
 
-#define MAXT 32
+#define MAXT 320
 #define MAXOPS 256
-#define STACK_SZ (256 * 1024)
+#define STACK_SZ (64 * 1024)
 
 enum { OP_RLOCK, OP_WLOCK, OP_RTRY, OP_WTRY, OP_RUNLOCK, OP_WUNLOCK, NOPS };
 static const char *op_names[NOPS] = { "rlock", "wlock", "rtry", "wtry", "runlock", "wunlock" };
@@ -74,9 +81,12 @@ static FILE *out;
 
 /* oracle: user-level holders */
 static int hold_r[MAXT], hold_w[MAXT];
-static int unsafe_seen = 0;
+static int unsafe_seen = 0, tryblock_seen = 0;
 
 static void yield_at (int status, PCondVariable *cv) {
+	if (cur < 0) return;        /* called from the scheduler's own context (`twin`, `null`): runs through */
+	if (status == ST_W && thr[cur].idx < thr[cur].nops && (thr[cur].ops[thr[cur].idx] == OP_RTRY || thr[cur].ops[thr[cur].idx] == OP_WTRY))
+		tryblock_seen = 1;
 	thr[cur].status = status;
 	thr[cur].cv = cv;
 	swapcontext (&thr[cur].ctx, &main_ctx);
@@ -85,27 +95,33 @@ static void yield_at (int status, PCondVariable *cv) {
 /* ---- harness-side primitives ---- */
 P_LIB_API PMutex *p_mutex_new (void) { PMutex *m = calloc (1, sizeof *m); if (m) m->owner = -1; return m; }
 P_LIB_API void p_mutex_free (PMutex *m) { free (m); }
+#define ME (cur < 0 ? -2 : cur)
+static int main_ctx_blocked = 0;      /* the scheduler's own context met a mutex that is owned / a wait */
+static jmp_buf main_ctx_jb;           /* a wait reached from the scheduler's context cannot return: leave the call */
 P_LIB_API pboolean p_mutex_lock (PMutex *m) {
 	yield_at (ST_L, NULL);
+	if (cur < 0 && m->owner != -1) { main_ctx_blocked = 1; return FALSE; }
 	if (m->owner != -1) { fprintf (out, "harness-error: mutex_lock resumed while owned\n"); fflush (out); abort (); }
-	m->owner = cur;
+	m->owner = ME;
 	return TRUE;
 }
 P_LIB_API pboolean p_mutex_trylock (PMutex *m) {
 	yield_at (ST_L, NULL);
 	if (m->owner != -1) return FALSE;
-	m->owner = cur;
+	m->owner = ME;
 	return TRUE;
 }
 P_LIB_API pboolean p_mutex_unlock (PMutex *m) {
 	yield_at (ST_U, NULL);
-	if (m->owner != cur) { fprintf (out, "harness-error: mutex_unlock by non-owner\n"); fflush (out); abort (); }
+	if (cur < 0 && m->owner != -2) { main_ctx_blocked = 1; return FALSE; }
+	if (m->owner != ME) { fprintf (out, "harness-error: mutex_unlock by non-owner\n"); fflush (out); abort (); }
 	m->owner = -1;
 	return TRUE;
 }
 P_LIB_API PCondVariable *p_cond_variable_new (void) { return calloc (1, sizeof (PCondVariable)); }
 P_LIB_API void p_cond_variable_free (PCondVariable *c) { free (c); }
 P_LIB_API pboolean p_cond_variable_wait (PCondVariable *c, PMutex *m) {
+	if (cur < 0) { main_ctx_blocked = 1; longjmp (main_ctx_jb, 1); }
 	yield_at (ST_W, c);
 	if (m->owner != cur) { fprintf (out, "harness-error: wait without owning the mutex\n"); fflush (out); abort (); }
 	m->owner = -1;                 /* atomically release and block */
@@ -117,6 +133,7 @@ P_LIB_API pboolean p_cond_variable_wait (PCondVariable *c, PMutex *m) {
 P_LIB_API pboolean p_cond_variable_signal (PCondVariable *c) {
 	int i, u = -1;
 	yield_at (ST_S, c);
+	if (cur < 0) return TRUE;
 	if (g_pick >= 0) u = g_pick;   /* validated by the scheduler */
 	else for (i = 0; i < nthr; i++) if (thr[i].status == ST_B && thr[i].cv == c) { u = i; break; }
 	if (u >= 0) thr[u].status = ST_K;
@@ -125,6 +142,7 @@ P_LIB_API pboolean p_cond_variable_signal (PCondVariable *c) {
 P_LIB_API pboolean p_cond_variable_broadcast (PCondVariable *c) {
 	int i;
 	yield_at (ST_C, c);
+	if (cur < 0) return TRUE;
 	for (i = 0; i < nthr; i++) if (thr[i].status == ST_B && thr[i].cv == c) thr[i].status = ST_K;
 	return TRUE;
 }
@@ -191,7 +209,7 @@ static const char *cv_name (PCondVariable *c) {
 
 static void print_status (void) {
 	int t, alldone = 1, anyen = 0;
-	char buf[8192];
+	static char buf[MAXT * 48 + 256];
 	int n = 0;
 	if (mutex_owner () < 0) n += snprintf (buf + n, sizeof buf - n, "m=-");
 	else n += snprintf (buf + n, sizeof buf - n, "m=%d", mutex_owner ());
@@ -220,6 +238,7 @@ static void print_status (void) {
 	}
 	if (!alldone && !anyen) n += snprintf (buf + n, sizeof buf - n, " !DEADLOCK");
 	if (unsafe_seen) n += snprintf (buf + n, sizeof buf - n, " !UNSAFE");
+	if (tryblock_seen) n += snprintf (buf + n, sizeof buf - n, " !TRYBLOCK");
 	fprintf (out, "%s\n", buf);
 }
 
@@ -240,7 +259,7 @@ static void do_reset (void) {
 	int t;
 	for (t = 0; t < nthr; t++) { free (thr[t].stack); }
 	memset (thr, 0, sizeof thr);
-	nthr = 0; started = 0; cur = -1; g_pick = -1; unsafe_seen = 0;
+	nthr = 0; started = 0; cur = -1; g_pick = -1; unsafe_seen = 0; tryblock_seen = 0; main_ctx_blocked = 0;
 	memset (hold_r, 0, sizeof hold_r); memset (hold_w, 0, sizeof hold_w);
 	if (g_lock) {
 		/* threads may be parked inside the lock: free the parts, not p_rwlock_free (it warns) */
@@ -297,6 +316,42 @@ static int do_spur (int t) {
 	if (!started || t < 0 || t >= nthr || thr[t].status != ST_B) return 0;
 	thr[t].status = ST_K;
 	return 1;
+}
+
+/* a second lock object, exercised from the scheduler's context */
+static const char *do_twin (void) {
+	PRWLock *l2;
+	puint32 a0 = g_lock->active_threads, w0 = g_lock->waiting_threads;
+	int owner0 = g_lock->mutex->owner;
+	const char *res = "ok";
+	main_ctx_blocked = 0;
+	l2 = p_rwlock_new ();
+	if (l2 == NULL) return "!NEW-FAILED";
+	if (l2 == g_lock) return "!SAME-OBJECT";
+	if (setjmp (main_ctx_jb)) return "!TRYBLOCK(a-trylock-or-unlock-on-the-second-lock-reached-p_cond_variable_wait)";
+	if (l2->mutex == g_lock->mutex || l2->read_cv == g_lock->read_cv || l2->write_cv == g_lock->write_cv) res = "!SHARED-PARTS";
+	else if (p_rwlock_writer_trylock (l2) != TRUE) res = "!NOT-INDEPENDENT(writer-trylock-on-a-fresh-lock-failed)";
+	else if (p_rwlock_reader_trylock (l2) != FALSE) res = "!UNSAFE(reader-trylock-granted-under-a-writer)";
+	else if (p_rwlock_writer_unlock (l2) != TRUE) res = "!NOT-INDEPENDENT(writer-unlock)";
+	else if (p_rwlock_reader_trylock (l2) != TRUE || p_rwlock_reader_trylock (l2) != TRUE) res = "!NOT-INDEPENDENT(two-readers-on-a-fresh-lock)";
+	else if (p_rwlock_writer_trylock (l2) != FALSE) res = "!UNSAFE(writer-trylock-granted-under-readers)";
+	else if (p_rwlock_reader_unlock (l2) != TRUE || p_rwlock_reader_unlock (l2) != TRUE) res = "!NOT-INDEPENDENT(reader-unlock)";
+	if (!strcmp (res, "ok") && (main_ctx_blocked || l2->active_threads != 0 || l2->waiting_threads != 0)) res = "!NOT-INDEPENDENT(second-lock-not-idle-afterwards)";
+	if (!strcmp (res, "ok") && (g_lock->active_threads != a0 || g_lock->waiting_threads != w0 || g_lock->mutex->owner != owner0)) res = "!NOT-INDEPENDENT(first-lock-changed)";
+	p_mutex_free (l2->mutex); p_cond_variable_free (l2->read_cv); p_cond_variable_free (l2->write_cv); p_free (l2);
+	return res;
+}
+
+static int do_null (int op) {
+	if (setjmp (main_ctx_jb)) return 1;
+	switch (op) {
+	case OP_RLOCK: return p_rwlock_reader_lock (NULL) != FALSE;
+	case OP_WLOCK: return p_rwlock_writer_lock (NULL) != FALSE;
+	case OP_RTRY: return p_rwlock_reader_trylock (NULL) != FALSE;
+	case OP_WTRY: return p_rwlock_writer_trylock (NULL) != FALSE;
+	case OP_RUNLOCK: return p_rwlock_reader_unlock (NULL) != FALSE;
+	default: return p_rwlock_writer_unlock (NULL) != FALSE;
+	}
 }
 
 static unsigned long long rng_state;
@@ -371,6 +426,16 @@ int main (void) {
 			else fprintf (out, "not-enabled\n");
 		}
 		else if (!strcmp (tok[0], "reset") && nt == 1) { do_reset (); fprintf (out, "ok\n"); }
+		else if (!strcmp (tok[0], "twin") && nt == 1) {
+			if (!started) fprintf (out, "bad-op\n");
+			else fprintf (out, "twin %s\n", do_twin ());
+		}
+		else if (!strcmp (tok[0], "null") && nt == 2) {
+			int k, f = -1;
+			for (k = 0; k < NOPS; k++) if (!strcmp (tok[1], op_names[k])) f = k;
+			if (f < 0) fprintf (out, "bad-op\n");
+			else { int r = do_null (f); p_rwlock_free (NULL); fprintf (out, "null %s ret=%d%s\n", op_names[f], r, r ? " !NULL-ACCEPTED" : ""); }
+		}
 		else if (!strcmp (tok[0], "nospec") && nt == 1) { fprintf (out, started ? "bad-op\n" : "ok\n"); }
 		else if (!strcmp (tok[0], "auto") && nt == 4) {
 			if (!started) fprintf (out, "bad-op\n");
